@@ -126,6 +126,21 @@ def lastBest (cost : Nat → Nat) : List Nat → Option Nat
 
 def EQUAL_SCORES : Nat := 3
 
+/-- `best_cost_for_allele[i][h][a]`: best cost over the admissible assignments that give haplotype `h` of
+individual `i` the allele `a` (`none` = `UINT_MAX`) -/
+def bestCostFor (ped : Ped) (t : Nat) (cost : Nat → Nat) (adm : List Nat) (i h a : Nat) : Option Nat :=
+  minCostWith cost (fun asg =>
+    match indivAlleles ped t asg i with
+    | some al => (if h = 0 then al.1 else al.2) == a
+    | none => false) adm
+
+/-- the entry of `pop_haps` for individual `i`: alleles under the best assignment, `EQUAL_SCORES` where
+`quality == 0` -/
+def allelesFor (ped : Ped) (t : Nat) (cost : Nat → Nat) (adm : List Nat) (best i : Nat) : Nat × Nat :=
+  let al := (indivAlleles ped t best i).getD (0, 0)
+  (if bestCostFor ped t cost adm i 0 0 == bestCostFor ped t cost adm i 0 1 then EQUAL_SCORES else al.1,
+   if bestCostFor ped t cost adm i 1 0 == bestCostFor ped t cost adm i 1 1 then EQUAL_SCORES else al.2)
+
 /-- `get_alleles()`: per individual `(allele0, allele1)`, with `EQUAL_SCORES` for ambiguous haplotypes;
 `none` = `runtime_error("Error: Mendelian conflict")` -/
 def getAlleles (ped : Ped) (t : Nat) (gts : List Gt) (cp : PartCosts) : Option (List (Nat × Nat)) :=
@@ -133,18 +148,7 @@ def getAlleles (ped : Ped) (t : Nat) (gts : List Gt) (cp : PartCosts) : Option (
   let cost := asgCost ped cp
   match lastBest cost adm with
   | none => none
-  | some best =>
-    (List.range ped.size).mapM (fun i =>
-      match indivAlleles ped t best i with
-      | none => none
-      | some (a0, a1) =>
-        let b := fun (h : Nat) (a : Nat) =>
-          minCostWith cost (fun asg => match indivAlleles ped t asg i with
-            | some al => (if h = 0 then al.1 else al.2) == a
-            | none => false) adm
-        let tie0 := b 0 0 == b 0 1
-        let tie1 := b 1 0 == b 1 1
-        some (if tie0 then EQUAL_SCORES else a0, if tie1 then EQUAL_SCORES else a1))
+  | some best => some ((List.range ped.size).map (allelesFor ped t cost adm best))
 
 /-! ## Mendelian conflicts and phasable variants -/
 
